@@ -1,20 +1,19 @@
 package c13
 
 import (
-	"fmt"
-	"math/big"
-	"testing"
-	"time"
-
-	bgvpoly "github.com/tuneinsight/lattigo/v6/circuits/bgv/polynomial"
+	"math"
 	ckkspoly "github.com/tuneinsight/lattigo/v6/circuits/ckks/polynomial"
-	"github.com/tuneinsight/lattigo/v6/core/rlwe"
-	"github.com/tuneinsight/lattigo/v6/schemes/bgv"
 	"github.com/tuneinsight/lattigo/v6/schemes/ckks"
 	"github.com/tuneinsight/lattigo/v6/utils/bignum"
+	"fmt"
+	"testing"
+
+	bgvpoly "github.com/tuneinsight/lattigo/v6/circuits/bgv/polynomial"
+	"github.com/tuneinsight/lattigo/v6/core/rlwe"
+	"github.com/tuneinsight/lattigo/v6/schemes/bgv"
 )
 
-func TestProbeBGV(t *testing.T) {
+func TestProbeLazy(t *testing.T) {
 	params, err := bgv.NewParametersFromLiteral(bgv.ParametersLiteral{LogN: 6, LogQ: []int{55, 55, 55, 55}, LogP: []int{56}, PlaintextModulus: 65537})
 	if err != nil {
 		t.Fatal(err)
@@ -29,49 +28,41 @@ func TestProbeBGV(t *testing.T) {
 	for _, inv := range []bool{false, true} {
 		eval := bgv.NewEvaluator(params, evk, inv)
 		pe := bgvpoly.NewEvaluator(params, eval)
-		for _, deg := range []int{0, 1, 2, 3, 4, 7, 8} {
-			for lvl := 0; lvl <= params.MaxLevel(); lvl++ {
+		for _, lazy := range []bool{false, true} {
+			for _, deg := range []int{1, 2, 3, 4, 5, 7, 8, 15} {
 				vals := make([]uint64, params.MaxSlots())
 				for i := range vals {
-					vals[i] = uint64(i * 3 % 65537)
+					vals[i] = uint64(i*3+1) % 65537
 				}
-				pt := bgv.NewPlaintext(params, lvl)
+				pt := bgv.NewPlaintext(params, 3)
 				ecd.Encode(vals, pt)
 				ct, _ := enc.EncryptNew(pt)
 				coeffs := make([]uint64, deg+1)
 				for i := range coeffs {
 					coeffs[i] = uint64(i + 1)
 				}
-				poly := bignum.NewPolynomial(bignum.Monomial, coeffs, nil)
-				func() {
-					defer func() {
-						if r := recover(); r != nil {
-							fmt.Printf("inv=%v deg=%d lvl=%d PANIC %v\n", inv, deg, lvl, r)
-						}
-					}()
-					t0 := time.Now()
-					res, err := pe.Evaluate(ct, poly, params.DefaultScale())
-					if err != nil {
-						fmt.Printf("inv=%v deg=%d lvl=%d err=%v\n", inv, deg, lvl, err)
-						return
+				poly := bgvpoly.NewPolynomial(coeffs)
+				poly.Lazy = lazy
+				res, err := pe.Evaluate(ct, poly, params.DefaultScale())
+				if err != nil {
+					fmt.Printf("inv=%v lazy=%v deg=%d err=%v\n", inv, lazy, deg, err)
+					continue
+				}
+				out := make([]uint64, params.MaxSlots())
+				ecd.Decode(dec.DecryptNew(res), out)
+				nbad := 0
+				for i := range out {
+					if refModT(coeffs, vals[i], 65537) != out[i] {
+						nbad++
 					}
-					out := make([]uint64, params.MaxSlots())
-					ecd.Decode(dec.DecryptNew(res), out)
-					ok := true
-					for i := range out {
-						x := new(big.Int).SetUint64(vals[i])
-						if poly.EvaluateModP(x, big.NewInt(65537)).Uint64() != out[i] {
-							ok = false
-						}
-					}
-					fmt.Printf("inv=%v deg=%d lvl=%d -> lvl=%d scale=%v ok=%v %v\n", inv, deg, lvl, res.Level(), res.Scale.Uint64(), ok, time.Since(t0))
-				}()
+				}
+				fmt.Printf("inv=%v lazy=%v deg=%d -> lvl=%d deg=%d bad=%d\n", inv, lazy, deg, res.Level(), res.Degree(), nbad)
 			}
 		}
 	}
 }
 
-func TestProbeCKKS(t *testing.T) {
+func TestProbeLazyCKKS(t *testing.T) {
 	params, err := ckks.NewParametersFromLiteral(ckks.ParametersLiteral{LogN: 6, LogQ: []int{55, 45, 45, 45, 45}, LogP: []int{56}, LogDefaultScale: 45})
 	if err != nil {
 		t.Fatal(err)
@@ -86,52 +77,45 @@ func TestProbeCKKS(t *testing.T) {
 	eval := ckks.NewEvaluator(params, evk)
 	pe := ckkspoly.NewEvaluator(params, eval)
 	for _, basis := range []bignum.Basis{bignum.Monomial, bignum.Chebyshev} {
-		for _, deg := range []int{0, 1, 2, 3, 4, 7, 8, 15} {
-			for lvl := 0; lvl <= params.MaxLevel(); lvl++ {
+		for _, lazy := range []bool{false, true} {
+			for _, deg := range []int{3, 4, 5, 7, 8, 15} {
 				vals := make([]float64, params.MaxSlots())
 				for i := range vals {
 					vals[i] = float64(i)/float64(len(vals))*2 - 1
 				}
-				pt := ckks.NewPlaintext(params, lvl)
+				pt := ckks.NewPlaintext(params, 4)
 				ecd.Encode(vals, pt)
 				ct, _ := enc.EncryptNew(pt)
 				coeffs := make([]float64, deg+1)
+				cc := make([]cx, deg+1)
 				for i := range coeffs {
 					coeffs[i] = 1 / float64(i+1)
+					cc[i] = cxF(coeffs[i], 0)
 				}
-				poly := bignum.NewPolynomial(basis, coeffs, [2]float64{-1, 1})
-				func() {
-					defer func() {
-						if r := recover(); r != nil {
-							fmt.Printf("basis=%v deg=%d lvl=%d PANIC %v\n", basis, deg, lvl, r)
-						}
-					}()
-					t0 := time.Now()
-					res, err := pe.Evaluate(ct, poly, params.DefaultScale())
-					if err != nil {
-						fmt.Printf("basis=%v deg=%d lvl=%d err=%v\n", basis, deg, lvl, err)
-						return
+				poly := ckkspoly.NewPolynomial(bignum.NewPolynomial(basis, coeffs, [2]float64{-1, 1}))
+				poly.Lazy = lazy
+				res, err := pe.Evaluate(ct, poly, params.DefaultScale())
+				if err != nil {
+					fmt.Printf("basis=%v lazy=%v deg=%d err=%v\n", basis, lazy, deg, err)
+					continue
+				}
+				out := make([]float64, params.MaxSlots())
+				ecd.Decode(dec.DecryptNew(res), out)
+				maxe := 0.0
+				for i := range out {
+					var w cx
+					if basis == bignum.Monomial {
+						w = refMono(cc, cxF(vals[i], 0))
+					} else {
+						w = refCheb(cc, cxF(vals[i], 0))
 					}
-					out := make([]float64, params.MaxSlots())
-					ecd.Decode(dec.DecryptNew(res), out)
-					maxe := 0.0
-					for i := range out {
-						w := poly.Evaluate(vals[i])
-						wf, _ := w[0].Float64()
-						if d := wf - out[i]; d > maxe {
-							maxe = d
-						} else if -d > maxe {
-							maxe = -d
-						}
+					wf, _ := w.re.Float64()
+					if d := math.Abs(wf - out[i]); d > maxe {
+						maxe = d
 					}
-					fmt.Printf("basis=%v deg=%d lvl=%d -> lvl=%d scale=%v maxerr=%g %v\n", basis, deg, lvl, res.Level(), res.Scale.Float64(), maxe, time.Since(t0))
-				}()
+				}
+				fmt.Printf("basis=%v lazy=%v deg=%d -> lvl=%d maxerr=%g\n", basis, lazy, deg, res.Level(), maxe)
 			}
 		}
 	}
-	// plaintext Chebyshev evaluate with asymmetric interval
-	p := bignum.NewPolynomial(bignum.Chebyshev, []float64{0.5, 1, 0.25}, [2]float64{0, 4})
-	y := p.Evaluate(3.0)
-	// T1(u) with u = (2x - a - b)/(b-a) = (6-4)/4 = 0.5 ; T2 = 2u^2-1 = -0.5 ; p = 0.5+0.5-0.125 = 0.875
-	fmt.Printf("cheb asym interval Evaluate(3.0) = %v + i %v (want 0.875)\n", y[0], y[1])
 }
